@@ -12,11 +12,17 @@ Singles == {<< <<a, b>> >> : a \in Reachable, b \in Behaviours} \cup {<< <<a, "2
 Slowly == {<<"url", "hang">>, <<"physical", "slow-200">>}
 Rest == {<<"url", "200">>, <<"physical-headers", "500">>, <<"data-null", "200">>, <<"recv-null", "200">>, <<"refused", "200">>, <<"url-absent", "200">>}
 Few == {<<"url", "200">>, <<"url", "404">>, <<"data-not-object", "200">>}
-Plans ==
+PlansQuick ==
   IF Size = 1
   THEN Singles \cup {<<x, y>> : x, y \in Rest} \cup {<<a, x, y>> : a \in Slowly, x, y \in Rest}
        \cup {<<a, x, y, z>> : a \in Slowly, x, y, z \in {<<"url", "200">>, <<"data-null", "200">>}}
   ELSE {<<a, x, y, z>> : a \in Slowly, x, y, z \in Few} \cup {<<a, x, y, z, <<"url", "200">> >> : a \in {<<"url", "hang">>}, x, y, z \in {<<"url", "200">>, <<"scheme-ftp", "200">>}}
+CONSTANT Deep      \* thorough tier: every pair of classes as well
+AllOf == {one[1] : one \in Singles}
+Plans ==
+  IF Deep /\ Size = 1 THEN PlansQuick \cup {<<a, b>> : a, b \in AllOf}
+  ELSE PlansQuick
+
 
 VARIABLES plan, k, hist
 gvars == <<s, plan, k, hist>>
